@@ -285,8 +285,12 @@ class Mesh:
         atol = np.min(self.params()) / 1e2
         for d in range(self.doflocs.shape[0]):
             dmin = np.min(self.doflocs[d])
+            # (absolute tolerance only: a tolerance relative to the
+            # coordinate would tag interior facets of meshes that lie far
+            # from the origin)
             ix = self.facets_satisfying(lambda x: np.isclose(x[d],
                                                              dmin,
+                                                             rtol=0.,
                                                              atol=atol))
             if len(ix) >= 1:
                 boundaries[minnames[d]] = ix
@@ -294,6 +298,7 @@ class Mesh:
             dmax = np.max(self.doflocs[d])
             ix = self.facets_satisfying(lambda x: np.isclose(x[d],
                                                              dmax,
+                                                             rtol=0.,
                                                              atol=atol))
             if len(ix) >= 1:
                 boundaries[maxnames[d]] = ix
